@@ -25,7 +25,7 @@ RULE = ('plan = seeded prefix history (1-3 identities, random versions, '
         'contains a successful creating request and the probe is id-less or '
         'differs from the last prefix request in version or identity. '
         'Distinct = digest of (prefix results, probe).')
-PROBES = ['prefix_corrupted_frame', 'probe_after_response_size_limit_on_same_session', 'probe_idless', 'probe_version_switch', 'probe_identity_switch',
+PROBES = ['concurrent_sessions_plan', 'prefix_corrupted_frame', 'probe_after_response_size_limit_on_same_session', 'probe_idless', 'probe_version_switch', 'probe_identity_switch',
           'prefix_header_reject', 'prefix_failed_batch', 'restart_in_prefix']
 REAL_VS_STUB = {
     'real': ['KmipEngine', 'KmipSession._handle_message_loop/authenticate',
@@ -118,6 +118,15 @@ def gen_probe(ctx, r, last):
 
 def generate(rng, tier, index):
     r = rng
+    if index % 12 == 11:
+        # requests of concurrently served sessions: the transient state of
+        # one must not reach the other either (the schedules, workload and
+        # sequential-witness oracle of the C10 check)
+        from sim.props import c10
+        plan = c10.generate(rng, tier, index)
+        plan['kind'] = 'concurrent'
+        plan['steps'] = []
+        return plan
     nact = r.choice([1, 2, 2, 3])
     actors = [{'cn': 'user%d' % i} for i in range(nact)]
     if r.random() < 0.25:
@@ -202,6 +211,20 @@ def stale_placeholder_reachable(probe, fresh_resp):
 
 
 def execute(plan):
+    if plan.get('kind') == 'concurrent':
+        from sim.props import c10
+        res = c10.execute(plan)
+        probes = dict((p, 0) for p in PROBES)
+        probes['concurrent_sessions_plan'] = 1
+        for v in res['violations']:
+            v['sig'] = {'oracle': 'concurrent-' + v['sig']['oracle'],
+                        'differs': v['sig'].get('differs'),
+                        'stale_placeholder_reachable': None}
+        res['probes'] = probes
+        res['nontrivial'] = False
+        res['sample'] = {'kind': 'concurrent',
+                         'clients': res['sample'].get('clients')}
+        return res
     probes = dict((p, 0) for p in PROBES)
     viol = []
     states = []
@@ -309,8 +332,13 @@ def execute(plan):
             B.close()
 
 
+SHRINK_LISTS = ['steps', 'preempts', 'tiebreaks']
+
+
 def simplify(plan):
     """Candidate simplifications after step removal."""
+    if plan.get('kind') == 'concurrent':
+        return
     p = plan['probe']
     if len(p['items']) > 1:
         for i in range(len(p['items'])):
